@@ -25,3 +25,23 @@ Definition tcp_layout (sp dp sq ak : N) (ns cwr ece urg ack psh rst syn fin : bo
       bit cwr * 128 + bit ece * 64 + bit urg * 32 + bit ack * 16 + bit psh * 8 + bit rst * 4
       + bit syn * 2 + bit fin]
   ++ field 2 win ++ field 2 ck ++ field 2 up ++ opts.
+
+(* RFC 791 section 3.1 (+ RFC 2474 DSCP, RFC 3168 ECN):
+   |Version|  IHL  |    DSCP   |ECN|          Total Length         |
+   |         Identification        |0|D|M|     Fragment Offset     |
+   |  Time to Live |    Protocol   |         Header Checksum       |
+   |                       Source Address                          |
+   |                    Destination Address                        |
+   |                    Options                    |    Padding    |
+   IHL = header length in 32 bit words. *)
+Definition ipv4_layout (dscp ecn tl id : N) (df mf : bool) (fo ttl proto ck : N)
+           (src dst opts : bytes) : bytes :=
+  [4 * 16 + (5 + len opts / 4); dscp * 4 + ecn] ++ field 2 tl ++ field 2 id
+  ++ field 2 ((bit df * 2 + bit mf) * 8192 + fo)
+  ++ [ttl; proto] ++ field 2 ck ++ src ++ dst ++ opts.
+
+(* RFC 8200 section 4.5, fragment header:
+   |  Next Header  |   Reserved    |      Fragment Offset    |Res|M|
+   |                         Identification                        | *)
+Definition frag_layout (nh fo : N) (mf : bool) (id : N) : bytes :=
+  [nh; 0] ++ field 2 (fo * 8 + bit mf) ++ field 4 id.
